@@ -340,3 +340,253 @@ class StopHere:
 
     def run_for(self, I, st, env, in_class):
         raise StopHere.Reached()
+
+
+# ------------------------------------------------------------------ C08: make_phantoms, UNBOUNDED number of CVRs and phantoms (loop summaries)
+
+def _as_list(I, v):
+    if isinstance(v, SymObjList):
+        return v
+    if isinstance(v, list) and not v:
+        return SymObjList(0, lambda i: None)
+    raise NotApplicable("the phantom list is not built by appending to an empty list")
+
+
+def _simple_append_body(st, listname):
+    """the loop body only binds temporaries and appends to `listname` (so that it can be summarised element by element)"""
+    import ast
+    for b in st.body:
+        if isinstance(b, ast.Assign) and all(isinstance(t, ast.Name) and t.id != listname for t in b.targets):
+            continue
+        if isinstance(b, ast.Expr) and isinstance(b.value, ast.Call) and isinstance(b.value.func, ast.Attribute) \
+                and b.value.func.attr == "append" and isinstance(b.value.func.value, ast.Name) and b.value.func.value.id == listname:
+            continue
+        return False
+    return True
+
+
+class AppendSummary:
+    """summary of an append-only loop over the phantom list X (`for i in range(K): X.append(E)` or `while T: X.append(E)`):
+    the element appended when the list has length q is obtained by running the REAL body on a list of length q;
+    for the while form the obligations  'T holds exactly while len(X) < final length'  are proved for an arbitrary length."""
+
+    def __init__(self, S, listname, final_len, kind):
+        self.S, self.listname, self.final_len, self.kind = S, listname, final_len, kind
+
+    def summarise(self, I, st, env, in_class):
+        from pyvc.interp import Env
+        S, c, X = self.S, ctx(), self.listname
+        if not _simple_append_body(st, X):
+            raise NotApplicable("loop body is not an append-only body")
+        old = _as_list(I, env.lookup(X))
+        oldlen = old.length
+        Lf = self.final_len(env, oldlen)
+
+        def run_body_at(q, extra_vars):
+            holder = {}
+
+            def full_make(r):
+                if not (isinstance(oldlen, int) and oldlen == 0) and c.decide(icmp("<", r, oldlen)):
+                    return old.at(r)
+                return new_at(r)
+            tmp = SymObjList(mkint(q), full_make)
+            env2 = Env(dict({X: tmp}, **extra_vars), env, env.module)
+            env2.fn_qual = getattr(env, "fn_qual", None)
+            holder["tmp"], holder["env"] = tmp, env2
+            return holder
+
+        memo = {}
+
+        def new_at(q):
+            k = tid(zi(q))
+            if k not in memo:
+                ev = {}
+                if self.kind == "for":
+                    ev[st.target.id] = mkint(isub(q, oldlen))
+                h = run_body_at(q, ev)
+                I.exec_block(st.body, h["env"], in_class)
+                S.holds("the body appends exactly one record", icmp("==", h["tmp"].length, iadd(q, 1)))
+                memo[k] = (zi(q), h["tmp"].at(q))
+            return memo[k][1]
+
+        def full(r):
+            if not (isinstance(oldlen, int) and oldlen == 0) and c.decide(icmp("<", r, oldlen)):
+                return old.at(r)
+            return new_at(r)
+
+        if self.kind == "while":
+            L = z3.Int(c.fresh("Lw"))
+            h = run_body_at(L, {})
+            T = I.truth_term(I.eval(st.test, h["env"]))
+            S.holds("the loop continues exactly while the phantom list is shorter than its final length",
+                    biff(mkbool(T).t if isinstance(mkbool(T), SBool) else T, icmp("<", L, Lf)),
+                    extra=[zb(icmp(">=", L, oldlen)), zb(icmp("<=", L, Lf))])
+            S.holds("final length >= length on entry", icmp(">=", Lf, oldlen))
+        else:
+            import ast
+            if not (isinstance(st.iter, ast.Call) and getattr(st.iter.func, "id", None) == "range" and len(st.iter.args) == 1
+                    and isinstance(st.target, ast.Name)):
+                raise NotApplicable("loop is not `for i in range(K)`")
+            K = I.eval(st.iter.args[0], env)
+            S.holds("number of iterations = final length - length on entry (or none if that is negative)",
+                    icmp("==", iadd(oldlen, iite(icmp(">", K, 0), iterm(K), 0)), Lf))
+        env.vars[X] = SymObjList(mkint(Lf), full)
+
+    def run_for(self, I, st, env, in_class):
+        return self.summarise(I, st, env, in_class)
+
+    def run_while(self, I, st, env, in_class):
+        return self.summarise(I, st, env, in_class)
+
+
+def votes_has(rec, cid):
+    v = rec.attrs["votes"]
+    if isinstance(v, OptDict):
+        return bterm(v.has(cid))
+    if isinstance(v, dict):
+        return cid in v
+    raise NotApplicable("phantom votes are not a dict")
+
+
+class ListContestSummary:
+    """`for i in range(K): X[i].votes[con.id] = {}`: the real body is run on record i0 (arbitrary, 0 <= i0 < K) and its effect on
+    that record is checked (lists the contest; every other field and every other contest's presence unchanged); the summary
+    gives record q the contest exactly when 0 <= q < K or it had it before."""
+
+    def __init__(self, S, listname, spec_K):
+        self.S, self.listname, self.spec_K = S, listname, spec_K
+
+    def run_for(self, I, st, env, in_class):
+        import ast
+        from pyvc.interp import Env
+        S, c, X = self.S, ctx(), self.listname
+        if not (isinstance(st.iter, ast.Call) and getattr(st.iter.func, "id", None) == "range" and len(st.iter.args) == 1
+                and isinstance(st.target, ast.Name)):
+            raise NotApplicable("loop is not `for i in range(K)`")
+        lst = _as_list(I, env.lookup(X))
+        con = env.lookup("con")
+        cid = con.attrs["id"]
+        K = I.eval(st.iter.args[0], env)
+        S.holds(f"[{cid}] the contest is listed on the first (cards - cvrs) phantoms", icmp("==", K, self.spec_K(env)))
+        S.holds(f"[{cid}] enough phantoms exist", icmp("<=", K, lst.length))
+        if c.decide(icmp(">", K, 0)):
+            i0 = z3.Int(c.fresh("i0"))
+            c.assume(z3.And(i0 >= 0, i0 < zi(K)))
+            rec = lst.at(i0)
+            before = {k: v for k, v in rec.attrs.items() if k != "votes"}
+            hb = {x: votes_has(rec, x) for x in CONTESTS}
+            env2 = Env({st.target.id: SInt(i0)}, env, env.module)
+            env2.fn_qual = getattr(env, "fn_qual", None)
+            I.exec_block(st.body, env2, in_class)
+            rec2 = lst.at(i0)
+            S.holds(f"[{cid}] the body lists the contest on record i and changes nothing else on it",
+                    band(rec2 is rec, votes_has(rec, cid), *[biff(votes_has(rec, x), hb[x]) for x in CONTESTS if x != cid],
+                         *[bterm(mkbool(I.truth_term(I.equal(rec.attrs[k], before[k])))) if before[k] is not None else rec.attrs[k] is None
+                           for k in before]))
+
+        def make(q):
+            base = lst.make(q) if False else lst.at(q)
+            pres = {x: mkbool(bor(votes_has(base, x), band(x == cid, icmp(">=", q, 0), icmp("<", q, K))) if x == cid else votes_has(base, x))
+                    for x in CONTESTS}
+            return Obj(base.cls, dict(base.attrs, votes=OptDict(list(CONTESTS), pres, {x: {} for x in CONTESTS})))
+        env.vars[X] = SymObjList(lst.length, make)
+
+
+@script(["C08"], "CVR.make_phantoms/post (unbounded: symbolic number of CVRs, bounds and phantoms; loop summaries; 2 contests)",
+        variants=(("style",), ("nostyle",)))
+def make_phantoms_unbounded(S, I, variant):
+    use_style = variant[0] == "style"
+    c = ctx()
+    N = S.integer("N", lo=0)
+    CVR = I.get(MOD, "CVR")
+    H = {cid: z3.Function(f"lists_{cid}", z3.IntSort(), z3.BoolSort()) for cid in CONTESTS}
+    PH = lambda i: False        # precondition: the records handed in are real CVRs (phantoms are what this function creates)
+
+    def make(i):
+        votes = OptDict(list(CONTESTS), {cid: mkbool(H[cid](i)) for cid in CONTESTS}, {cid: {} for cid in CONTESTS})
+        return Obj(CVR, {"id": FStr(["cvr", SInt(i)]), "votes": votes, "phantom": False, "pool": False, "tally_pool": None,
+                         "sample_num": None, "p": None, "sampled": False, "card_in_batch": None})
+
+    cards = SymObjList(iterm(N), make)
+    cvrs_spec = {cid: SymArr(iterm(N), (lambda cid: (lambda i: mkint(iite(band(bnot(PH(zi(i))), H[cid](zi(i))), 1, 0))))(cid), "int").fold("+")
+                 for cid in CONTESTS}
+    max_cards = S.integer("max_cards", lo=0)
+    bound = {cid: S.integer(f"cards_{cid}", lo=0) for cid in CONTESTS}
+    cons = {cid: mk_contest(I, id=cid, cards=bound[cid], candidates=["x"], winner=["x"]) for cid in CONTESTS}
+    stratum = Obj(I.get(MOD, "Stratum"), {"use_style": use_style, "max_cards": max_cards})
+    audit = Obj(I.get(MOD, "Audit"), {"strata": {"s": stratum}})
+    linked = set()
+
+    def link(cid):
+        """con.cvrs: the code's count is a sum over the positions of the list, pointwise equal to the spec's indicator"""
+        if cid in linked or "cvrs" not in cons[cid].attrs or cons[cid].attrs["cvrs"] is None:
+            return
+        linked.add(cid)
+        got = cons[cid].attrs["cvrs"]
+        mine = [t for t in I.trace.get("filtered_sum", []) if t[0] is got or (isinstance(got, SInt) and isinstance(t[0], SInt) and t[0].t.eq(got.t))]
+        if not mine:
+            raise NotApplicable("con.cvrs is not computed as a sum over the CVR list")
+        _, fa, ind = mine[0]
+        j = z3.Int(c.fresh("jc"))
+        S.holds(f"[{cid}] con.cvrs counts exactly the non-phantom CVRs listing the contest (pointwise indicator, same length)",
+                band(icmp("==", fa.length, N), icmp("==", ind.at(j), iite(band(bnot(PH(j)), H[cid](j)), 1, 0))), extra=[j >= 0, j < zi(N)])
+        c.assume(icmp("==", got, cvrs_spec[cid].at(iterm(N))))   # extensionality of the sum (same summands, same length)
+
+    def needed(cid):
+        for x in CONTESTS:
+            link(x)
+        return isub(bound[cid], cvrs_spec[cid].at(iterm(N)))
+    if use_style:
+        for cid in CONTESTS:      # precondition: the bound of a contest is at least the number of CVRs listing it
+            c.assume(icmp(">=", isub(bound[cid], cvrs_spec[cid].at(iterm(N))), 0))
+    else:
+        c.assume(icmp(">=", max_cards, N))
+    imax = lambda a, b: iite(icmp(">=", a, b), iterm(a), iterm(b))
+    I.invariants[("CVR.make_phantoms", 1)] = AppendSummary(S, "phantom_vrs", lambda env, oldlen: iadd(oldlen, isub(max_cards, N)), "for")
+    I.invariants[("CVR.make_phantoms", 3)] = AppendSummary(
+        S, "phantom_vrs", lambda env, oldlen: imax(oldlen, needed(env.lookup("con").attrs["id"])), "while")
+    I.invariants[("CVR.make_phantoms", 4)] = ListContestSummary(S, "phantom_vrs", lambda env: needed(env.lookup("con").attrs["id"]))
+    fn = I.get(MOD, "CVR.make_phantoms")
+    r, exc = guard(S, I, lambda: I.call(fn, [], {"audit": audit, "contests": cons, "cvr_list": cards, "prefix": "ph-"}))
+    if exc:
+        return
+    out, nph = r
+    if not isinstance(out, SymObjList):
+        raise NotApplicable("result is not the concatenation of the input list and the phantom list")
+    P = mkint(isub(out.length, N))
+    S.holds("returned count = number of appended records", icmp("==", nph, P))
+    if use_style:            # (without style information the property's clauses do not depend on con.cvrs)
+        for cid in CONTESTS:
+            link(cid)
+    i = z3.Int(c.fresh("orig"))
+    c.assume(z3.And(i >= 0, i < zi(N)))
+    S.holds("the original records come back first, the same objects", out.at(i) is cards.at(i))
+    q = z3.Int(c.fresh("ph"))
+    c.assume(z3.And(q >= 0, q < zi(P)))
+    rec = out.at(iadd(N, q))
+    S.holds("appended records are phantoms", bterm(mkbool(I.truth_term(rec.attrs["phantom"]))))
+    q2 = z3.Int(c.fresh("ph2"))
+    c.assume(z3.And(q2 >= 0, q2 < zi(P), q2 != q))
+    rec2 = out.at(iadd(N, q2))
+    S.holds("phantom identifiers are unique", bnot(bterm(mkbool(I.truth_term(I.equal(rec.attrs["id"], rec2.attrs["id"]))))))
+    if use_style:
+        big = imax(0, imax(needed("A"), needed("B")))
+        S.holds("number of phantoms = the largest shortfall", icmp("==", P, big))
+        for cid in CONTESTS:
+            S.holds(f"[{cid}] phantom q lists the contest exactly when q < cards - cvrs", biff(votes_has(rec, cid), icmp("<", q, needed(cid))))
+            S.holds(f"[{cid}] con.cards keeps the given bound", icmp("==", cons[cid].attrs["cards"], bound[cid]))
+            # counting lemma (induction): #{q < m : q < k} = min(m, k) for 0 <= k; hence records listing c = cvrs + (cards - cvrs) = cards
+            k = needed(cid)
+            seg = SymArr(iterm(P), (lambda k: (lambda p: mkint(iite(icmp("<", p, k), 1, 0))))(k), "int").fold("+")
+            inst = S.induction(f"[{cid}] #(phantom positions below m that are < k) = min(m, k)",
+                               lambda m, seg=seg, k=k: icmp("==", seg.at(m), iite(icmp("<", m, k), iterm(m), iterm(k))), lo=0, hi=iterm(P))
+            if inst(iterm(P)):
+                S.holds(f"[{cid}] records listing the contest (non-phantom CVRs + phantoms) = the contest's card bound",
+                        icmp("==", iadd(cons[cid].attrs["cvrs"], seg.at(iterm(P))), bound[cid]))
+            else:
+                S.undecided(f"[{cid}] records listing the contest = the contest's card bound")
+    else:
+        S.holds("total number of records = the stratum's card bound", icmp("==", out.length, max_cards))
+        for cid in CONTESTS:
+            S.holds(f"[{cid}] the contest's bound becomes the stratum bound", icmp("==", cons[cid].attrs["cards"], max_cards))
+            S.holds(f"[{cid}] phantoms list no contest", bnot(votes_has(rec, cid)))
